@@ -256,6 +256,7 @@ def rule_init_complete(ctx, fl):
             'is written by myth_barrier_init_body (an object placed in recycled memory must not depend on its previous contents)')
     vi = ctx.view(NATIVE, roots=['myth_barrier_init_body', 'myth_barrier_wait_body'], stops=('myth_queue_push', 'myth_queue_pop', 'myth_yield_ex_body', 'hr_gettime', 'fprintf', 'exit') + lib.SPIN_STOPS, flavour=fl)
     n = lib.init_covers(ctx, 'C06.6', vi, 'myth_barrier_init_body', ['myth_barrier_wait_body'], 'barrier')
+    lib.sleep_container_init_complete(ctx, 'C06.6', fl, 'stack')
     ctx.ob('C06.6', 'fields read by the operations enumerated', n >= 3, 'read set of the operations', loc='src/myth_sync_func.h', detail=str(n))
     ctx.floor('C06.6', 5)
 
